@@ -8,7 +8,7 @@
 //! operation trace); if the scenario finds nothing, the solver result is reported as
 //! inconclusive, never as a violation.
 //!
-//!   replay_tool <scenario> [out.json]      scenario: crash | fault | close | alter | events
+//!   replay_tool <scenario> [out.json]      scenario: crash | fault | close | alter | events | visibility
 //! exit 0: no violation reproduced, exit 1: violation reproduced (details in out.json)
 
 use redb::{Database, Durability, ReadableDatabase, ReadableTable, ReadableTableMetadata, StorageBackend, TableDefinition};
@@ -420,6 +420,138 @@ fn scenario_events() -> Option<Finding> {
     None
 }
 
+/// Backend that parks one armed `sync_data` call until released (forces the interleaving
+/// "reader begins while a durable commit is between its two locked sections").
+#[derive(Clone, Debug, Default)]
+struct Gated {
+    inner: Rec,
+    gate: Arc<(Mutex<(bool, bool, bool)>, std::sync::Condvar)>, // (armed, parked, released)
+}
+
+impl StorageBackend for Gated {
+    fn len(&self) -> Result<u64, std::io::Error> {
+        self.inner.len()
+    }
+    fn read(&self, offset: u64, out: &mut [u8]) -> Result<(), std::io::Error> {
+        self.inner.read(offset, out)
+    }
+    fn set_len(&self, len: u64) -> Result<(), std::io::Error> {
+        self.inner.set_len(len)
+    }
+    fn sync_data(&self) -> Result<(), std::io::Error> {
+        {
+            let (m, cv) = &*self.gate;
+            let mut g = m.lock().unwrap();
+            if g.0 {
+                g.0 = false;
+                g.1 = true;
+                cv.notify_all();
+                let deadline = std::time::Instant::now() + std::time::Duration::from_secs(20);
+                while !g.2 && std::time::Instant::now() < deadline {
+                    g = cv.wait_timeout(g, std::time::Duration::from_millis(100)).unwrap().0;
+                }
+            }
+        }
+        self.inner.sync_data()
+    }
+    fn write(&self, offset: u64, data: &[u8]) -> Result<(), std::io::Error> {
+        self.inner.write(offset, data)
+    }
+    fn close(&self) -> Result<(), std::io::Error> {
+        self.inner.close()
+    }
+}
+
+/// C03: what a reader that begins WHILE a durable commit is in flight observes: exactly the commit
+/// point that was visible before that commit started (here: a completed non-durable commit) -
+/// never an older one, never the commit that has not returned yet, never a mixture.
+fn scenario_visibility() -> Option<Finding> {
+    let read_t2 = |db: &Database| -> Option<(Option<u64>, Option<u64>)> {
+        let txn = db.begin_read().ok()?;
+        let t = txn.open_table(T2).ok()?;
+        let a = t.get("a").ok()?.map(|v| v.value());
+        let b = t.get("b").ok()?.map(|v| v.value());
+        Some((a, b))
+    };
+    let put = |db: &Database, v: u64, durable: bool, two_phase: bool| -> Result<(), String> {
+        let mut txn = db.begin_write().map_err(|e| e.to_string())?;
+        if !durable {
+            txn.set_durability(Durability::None).map_err(|e| e.to_string())?;
+        }
+        if two_phase {
+            txn.set_two_phase_commit(true);
+        }
+        {
+            let mut t = txn.open_table(T2).map_err(|e| e.to_string())?;
+            t.insert("a", &v).map_err(|e| e.to_string())?;
+            t.insert("b", &v).map_err(|e| e.to_string())?;
+        }
+        txn.commit().map_err(|e| e.to_string())
+    };
+    for two_phase in [false, true] {
+        for with_pending_non_durable in [true, false] {
+            let be = Gated::default();
+            let db = Arc::new(Database::builder().create_with_backend(be.clone()).ok()?);
+            put(&db, 0, true, false).ok()?;
+            let visible = if with_pending_non_durable {
+                put(&db, 1, false, false).ok()?;
+                1
+            } else {
+                0
+            };
+            if read_t2(&db)? != (Some(visible), Some(visible)) {
+                return Some(Finding { what: "a completed commit is not visible to a new reader".into(), detail: format!("expected {visible}") });
+            }
+            {
+                let (m, _) = &*be.gate;
+                *m.lock().unwrap() = (true, false, false);
+            }
+            let db2 = db.clone();
+            let writer = std::thread::spawn(move || {
+                let mut txn = db2.begin_write().unwrap();
+                if two_phase {
+                    txn.set_two_phase_commit(true);
+                }
+                {
+                    let mut t = txn.open_table(T2).unwrap();
+                    t.insert("a", &2u64).unwrap();
+                    t.insert("b", &2u64).unwrap();
+                }
+                txn.commit().unwrap();
+            });
+            // wait until the durable commit is parked inside sync_data
+            let parked = {
+                let (m, cv) = &*be.gate;
+                let mut g = m.lock().unwrap();
+                let deadline = std::time::Instant::now() + std::time::Duration::from_secs(10);
+                while !g.1 && std::time::Instant::now() < deadline {
+                    g = cv.wait_timeout(g, std::time::Duration::from_millis(50)).unwrap().0;
+                }
+                g.1
+            };
+            let seen = if parked { read_t2(&db) } else { None };
+            {
+                let (m, cv) = &*be.gate;
+                m.lock().unwrap().2 = true;
+                cv.notify_all();
+            }
+            let _ = writer.join();
+            if let Some(seen) = seen {
+                if seen != (Some(visible), Some(visible)) {
+                    return Some(Finding {
+                        what: "a reader that began while a durable commit was in flight did not observe the commit point visible before it".into(),
+                        detail: format!("two_phase={two_phase}, pending non-durable commit={with_pending_non_durable}: expected both keys = {visible}, observed {seen:?}"),
+                    });
+                }
+            }
+            if read_t2(&db)? != (Some(2), Some(2)) {
+                return Some(Finding { what: "a returned commit is not visible".into(), detail: "expected 2".into() });
+            }
+        }
+    }
+    None
+}
+
 /// C08: a failure of the k-th backend call (for every k in the workload): the operation reports an
 /// error or completes correctly, later write transactions are refused until reopen, nothing panics,
 /// and the file reopens to a commit point no older than the last acknowledged durable commit.
@@ -709,6 +841,7 @@ fn main() {
     let f = match scenario {
         "crash" => scenario_crash(),
         "events" => scenario_events(),
+        "visibility" => scenario_visibility(),
         "fault" => scenario_fault(),
         "close" => scenario_close(),
         "alter" => scenario_alter(),
